@@ -190,9 +190,28 @@ func apiSetup(cfg apiCfg, errPageExists bool) (*apiEnv, error) {
 
 var apiTrees = map[string]string{}
 
+// (derived by hand from the page sources above; the call's own "who" is normalised to Bo)
 var fixedSigs = map[apiOp]string{
 	{"EvalString", "sameprintI"}: "OUT s:2|1, 2",
 	{"EvalString", "sameprintS"}: "OUT s:11|[1 2]",
+	{"String", "ok"}:             "OUT " + okPage,
+	{"Response", "ok"}:           "OK BODY " + okPage,
+	{"String", "ok2"}:            "OUT <h>Second</h><b>second page of Bo &lt;i&gt;&amp;amp;&amp;&lt;/i&gt;[2:]</b><p>100% %d %s %%</p>",
+	{"String", "bare"}:           "OUT <h></h><b></b><p>100% %d %s %%</p>",
+	{"String", "static"}:         "OUT <p>Bo/3</p><i>Bo/3</i>",
+	{"String", "polyS"}:          "OUT poly:3|abc|3",
+	{"String", "polyA"}:          "OUT poly:2|x, y|2",
+	{"String", "polyI"}:          "OUT poly:4|1234|4",
+	{"Response", "polyA"}:        "OK BODY poly:2|x, y|2",
+	{"Response", "polyS"}:        "OK BODY poly:3|abc|3",
+	{"String", "dotS"}:           "OUT dot:struct|s",
+	{"String", "dotM"}:           "OUT dot:map|m",
+	{"String", "row1"}:           "OUT row:T1",
+	{"String", "row2"}:           "OUT row:N22",
+	{"EvalString", "row1"}:       "OUT s:T1",
+	{"EvalString", "row2"}:       "OUT s:N22",
+	{"String", "setvar"}:         "OUT set:3",
+	{"EvalString", "setvar"}:     "OUT s:s",
 }
 
 // close leaves the tree in place for the next case of this worker (the scratch directory is removed with the run).
@@ -615,7 +634,25 @@ func clip(s string, n int) string {
 	return s
 }
 
+// cmdSolos prints the result of every data-independent successful operation in a fresh state (used once to pin fixedSigs).
+func cmdSolos(args []string) int {
+	e, err := apiSetup(apiCfg{"t", ".tw", "", false}, true)
+	if err != nil {
+		fmt.Fprintln(os.Stderr, err)
+		return 2
+	}
+	defer e.close()
+	for _, o := range []apiOp{{"String", "ok"}, {"String", "ok2"}, {"String", "bare"}, {"String", "static"}, {"String", "polyS"}, {"String", "polyA"},
+		{"String", "polyI"}, {"String", "dotS"}, {"String", "dotM"}, {"String", "row1"}, {"String", "row2"}, {"EvalString", "row1"}, {"EvalString", "row2"},
+		{"String", "setvar"}, {"EvalString", "setvar"}, {"Response", "ok"}, {"Response", "polyA"}, {"Response", "polyS"}} {
+		s, _ := e.solo(o)
+		fmt.Printf("\t{%q, %q}: %q,\n", o.K, o.Page, s)
+	}
+	return 0
+}
+
 func init() {
+	extraCmds["solos"] = cmdSolos
 	families["api"] = apiFamily
 	extraCmds["race"] = cmdRace
 }
